@@ -34,9 +34,10 @@ class Gen:
         h = "k%d" % i
         lic = ["LICa%d" % i, "euxLIC%d" % i, "b%dxyz" % i][i % 3] if rng.random() < 0.5 else "LIC%d" % i
         red = rng.choice(["-", "pre%d.example" % i])
-        self.ops.append("proc defapp %s lic=%s name=app%d redirect=%s lang=%s ver=1.%d host=h%d dt=%d span=%d log=%d custom=%d" % (
+        self.ops.append("proc defapp %s lic=%s name=app%d redirect=%s lang=%s ver=1.%d host=h%d dt=%d span=%d log=%d custom=%d docker=%s" % (
             h, lic, i, red, rng.choice(["php", "c"]), i, i, rng.choice([0, 0, 1]),
-            rng.choice([10000, 5, 0, 20000]), rng.choice([10000, 3, 0, 100, 50000]), rng.choice([30000, 4, 0, 200000])))
+            rng.choice([10000, 5, 0, 20000]), rng.choice([10000, 3, 0, 100, 50000]), rng.choice([30000, 4, 0, 200000]),
+            rng.choice(["-", "-", "cid%da1b2c3" % i])))
         self.apps.append(h)
 
     def connect_reply_args(self, h):
@@ -71,6 +72,8 @@ class Gen:
             self.run_of[h] = run
             return run
         if outcome in ("malformed", "norunid"):
+            if outcome == "norunid":     # no usable run id: missing, null, or of the wrong JSON type
+                outcome = self.rng.choice(["norunid", "norunid", "numid", "objid", "nullid", "array"])
             self.ops.append("proc reply %s connect 0 200 bad=%s" % (h, outcome))
         else:
             self.ops.append("proc reply %s connect 0 %s" % (h, outcome))
@@ -214,7 +217,7 @@ def history(rng, profile=None, length=None):
                         g.ops.append("proc reply %s connect 0 200 %s" % (h, args))
                         g.run_of[h] = run2
                     elif o2 in ("malformed", "norunid"):
-                        g.ops.append("proc reply %s connect 0 200 bad=%s" % (h, o2))
+                        g.ops.append("proc reply %s connect 0 200 bad=%s" % (h, badkind(rng, o2)))
                     else:
                         g.ops.append("proc reply %s connect 0 %s" % (h, o2))
             else:
@@ -296,7 +299,7 @@ def lifecycle_history(rng):
             else:
                 g.ops.append("proc reply %s preconnect 0 200 host=coll-%s.example" % (h, h))
                 if out in ("malformed", "norunid"):
-                    g.ops.append("proc reply %s connect 0 200 bad=%s" % (h, out))
+                    g.ops.append("proc reply %s connect 0 200 bad=%s" % (h, badkind(rng, out)))
                 else:
                     g.ops.append("proc reply %s connect 0 %s" % (h, out))
             # probe the back-off window: queries inside it must not move it
@@ -350,6 +353,13 @@ def lifecycle_history(rng):
     g.ops.append("proc state")
     g.ops.append("proc cleanexit default=200")
     return g.ops
+
+
+def badkind(rng, kind):
+    """a connect reply without a usable run id: missing, null, or of the wrong JSON type"""
+    if kind == "norunid":
+        return rng.choice(["norunid", "norunid", "numid", "objid", "nullid", "array"])
+    return kind
 
 
 def malformed_history(rng):
@@ -417,9 +427,14 @@ def capacity_history(rng):
             parts = ["proc txn %s name=t1 pid=1 prio=%d" % (run, rng.randrange(1000000)), "ev=%d" % g.fresh()[0]]
             for key in ("ce", "se", "le", "ee"):
                 parts.append("%s=%s" % (key, ",".join(map(str, g.fresh(n)))))
+            if rng.random() < 0.6:      # the fixed capacities: 20 errors, 10 slow SQLs per period, in every period
+                parts.append("err=" + ",".join("%d:%d" % (rng.randint(0, 9), i) for i in g.fresh(rng.randint(6, 12))))
+            if rng.random() < 0.6:
+                mx = rng.randint(1, 50)
+                parts.append("sql=%d:%d:%d:%d:%d:%d" % (rng.randint(1, 16), rng.randint(1, 3), mx * 2, rng.randint(0, mx), mx, g.fresh()[0]))
             g.ops.append(" ".join(parts))
         for run in runs:
-            g.trigger(run, mask=rng.choice([ALL, ALL, 16 | 32 | 64 | 128 | 256, 256, 32]))
+            g.trigger(run, mask=rng.choice([ALL, ALL, 527, 527, 16 | 32 | 64 | 128 | 256, 256, 32]))
             g.drain(run, "200")
     g.ops.append("proc state")
     g.ops.append("proc cleanexit default=200")
